@@ -9,6 +9,9 @@ the event; a check reports those that name its own property."""
 DEV_REL = ["dev+b", "rel+b"]
 
 CORPORA = {
+    # C08 scope: the two crates' own header kinds (DummyTestHeader is a test utility of multiboot2-common)
+    "refslice8": dict(model="MC_RefSlice", quick=dict(MaxLen=24, MaxDecl=40, HeaderNames='{"bi", "tag", "mb", "htag"}'),
+                      thorough=dict(MaxLen=40, MaxDecl=56, HeaderNames='{"bi", "tag", "mb", "htag"}'), profiles=DEV_REL, place="end"),
     "refslice": dict(model="MC_RefSlice",
                      quick=dict(MaxLen=24, MaxDecl=40), thorough=dict(MaxLen=40, MaxDecl=56),
                      profiles=DEV_REL, place="both"),
@@ -37,12 +40,21 @@ CORPORA = {
     "typeids": dict(model="MC_TypeIds", quick={}, thorough={}, profiles=DEV_REL, place="end"),
     "rsdp": dict(model="MC_Rsdp", quick={}, thorough={}, profiles=DEV_REL, place="both"),
     "sized": dict(model="MC_Sized", quick=dict(SizedSpread=9), thorough=dict(SizedSpread=17), profiles=DEV_REL, place="both"),
+    "adv": dict(model="MC_Adv", quick={}, thorough={}, profiles=DEV_REL, place="both"),
     "load": dict(model="MC_Load", quick=dict(MaxT=72), thorough=dict(MaxT=160), profiles=DEV_REL, place="both"),
     "walk": dict(model="MC_Walk", quick=dict(MaxT=32), thorough=dict(MaxT=40), profiles=DEV_REL, place="both"),
 }
 
 # property -> list of corpus names; nontrivial rule used for evidence
+ALL_CFGS = ["dev+b", "rel+b", "dev-b", "rel-b"]
+PARSE_CORPORA = ["adv", "load", "walk", "fields", "getters", "dst", "sized", "fb", "rsdp", "efi", "elf", "str",
+                 "hload", "hwalk", "hfields", "hgetters", "hdst", "find", "cks", "refslice8", "typeids"]
+
 CHECKS = {
+    "C08": dict(corpora=PARSE_CORPORA, agree=ALL_CFGS,
+                rule="every parse-side corpus (boot information and header: loading, walking, getters, fields, iterators, strings, "
+                     "find_header, checksum, ref_from_slice, conversions) replayed by four harness builds (dev/release x builder feature "
+                     "on/off); every outcome of every call compared across the builds by TLC (spec/Trace8.tla)"),
     "C20": dict(corpora=["typeids", "fb"],
                 # native sweeps against the interval tables exported by MC_TypeIds: (which, table, quick stride, thorough stride)
                 sweeps=[("tag_type", "tag_type", 251, 1), ("mem_area_type", "mem_area_type", 251, 1), ("elf_type", "elf_type", 4099, 1)],
@@ -84,7 +96,7 @@ CHECKS = {
     "C19": dict(corpora=["elf"],
                 rule="all (count 0..MaxN, entry size in ElfSizes, string-table index 0..n+1, section bytes in {0, n*es-1, n*es, n*es+8}, "
                      "raw-type rotation); names resolved through a string table mapped at a fixed external address"),
-    "C01": dict(corpora=["fields", "getters", "dst", "sized", "fb", "rsdp", "efi", "elf", "walk", "load"],
+    "C01": dict(corpora=["fields", "getters", "dst", "sized", "fb", "rsdp", "adv", "efi", "elf", "walk", "load"],
                 rule="union of the boot-information corpora (every kind, every declared size, all framebuffer type bytes, "
                      "all walks); every call of every session is checked for crash/hang and for extents inside the owning tag"),
     "C04": dict(corpora=["fields", "getters", "fb", "rsdp"],
